@@ -40,10 +40,12 @@ NA_REASONS = {
 }
 
 NOT_BUILT = "simulation target per DESIGN.md §1 but its engine is not built/sound yet in this tree, so it is not claimed"
-for _p in "C14 C22 C26 C27 C35 C36 C37 C39 C44 C45".split():
+for _p in "C14 C26 C27 C35 C36 C37 C39 C45".split():
     NA_REASONS[_p] = NOT_BUILT
 
 ENGINE_INFO = {
+    "E4-fault-plan": {"path": "simkit/e4_exc.py", "serves_properties": ["C22", "C44"],
+                      "kind_free_text": "fault-plan simulation of generated exception-handling nests vs CPython (blocks, exc_info, chains, traceback lines)"},
     "E3-gen-history": {"path": "simkit/e3_gen.py", "serves_properties": ["C23"],
                        "kind_free_text": "operation-history and fault-plan simulation of compiled generator/coroutine/async-generator objects vs CPython"},
     "E2-build-sim": {"path": "simkit/e2_build.py + simkit/e2_determinism.py", "serves_properties": ["C46", "C42"],
@@ -57,6 +59,18 @@ ENGINE_INFO = {
 }
 
 CHECKS = {
+    "C22": {
+        "engine": "E4-fault-plan", "level": "fault_enumeration", "design_ref": "DESIGN.md §4 E4",
+        "technique": "deterministic simulation with fault injection: the compiled program is fixed, a fault plan (probe occurrence -> exception) decides what fails where; all single faults over an exception catalogue plus seeded double/triple faults (faults while another exception is in flight); refinement of block order, sys.exc_info() snapshots, cause/context chains against CPython; ddmin-minimised plan as replay",
+        "text": "For generated nests of try/except/else/finally, with, loops with break/continue/return, raise/raise-from/bare raise, every probe occurrence is made to raise each exception of a catalogue (user exception, subclass, BaseException subclass, KeyError, StopIteration, ExceptionGroup) in turn, then seeded multi-fault plans place further raises inside handlers, finally blocks and __exit__. Compared with CPython for the same source and plan: executed blocks in order, sys.exc_info() with __cause__/__context__/__suppress_context__ chain at every handler and finally entry, the propagated exception with its chain, sys.exc_info() after the call. Fault enumeration per function is complete up to a cap (80 single faults per (function, argument) in quick); the function space is sampled.",
+        "note": "Quarantine F6: no break/continue/return lexically inside a finally clause. The except* sub-grammar is generated but kept out of the alarmed tier (see DESIGN.md §6). CPython 3.12.1 is the reference. Builtin exception message text is not compared.",
+    },
+    "C44": {
+        "engine": "E4-fault-plan", "level": "exploration", "design_ref": "DESIGN.md §4 E4 (C44 part)",
+        "technique": "deterministic fault-plan simulation (same runs as C22): for every injected raise that propagates, the (function, line) chain of traceback entries of the workload file is compared with CPython's",
+        "text": "The fault plan decides which single-line statement raises at which nesting depth; for every case whose exception propagates out of the call (and whose C22 trace agrees), the traceback entries belonging to the workload file must name the same functions and lines in the same order as CPython. Sampling, not proof.",
+        "note": "SIM-part: the position-table encoder clause (LineTable.py, a pure function of a position list) and code-object position tables are NOT covered. Function names are compared without the module prefix compiled code adds by design. Known finding F16 (duplicate entry on re-raise) is matched narrowly and counted, not alarmed.",
+    },
     "C23": {
         "engine": "E3-gen-history", "level": "exploration", "design_ref": "DESIGN.md §4 E3",
         "technique": "deterministic simulation of the resume protocol: seeded operation histories (next/send/throw/close/abandon/re-entrant resume, asend/athrow/aclose stepped by a driver) and fault plans (raises injected at probes inside the body) against compiled generator objects, trace refinement against CPython executing the same source and history; ddmin replay",
